@@ -460,6 +460,21 @@ type argStale struct {
 	Q *bool  `frugal:"3,optional,bool"`
 }
 
+// a struct without a pointer in it, created by the decoder behind a pointer, in a list and as a map value
+type argStaleIn struct {
+	X int64   `frugal:"1,default,i64"`
+	Y int64   `frugal:"2,default,i64"`
+	Z int32   `frugal:"3,default,i32"`
+	W float64 `frugal:"4,default,double"`
+}
+
+type argStale2 struct {
+	P *argStaleIn           `frugal:"1,optional,argStaleIn"`
+	L []argStaleIn          `frugal:"2,default,list<argStaleIn>"`
+	M map[int32]*argStaleIn `frugal:"3,default,map<i32:argStaleIn>"`
+	Q []*argStaleIn         `frugal:"4,default,list<argStaleIn>"`
+}
+
 // staleProbe (C07, D26): "nothing from an earlier message ever appears in a later result", the destination of
 // a *failed* decode included.  Many decodes of a message full of a recognisable byte, dropped and collected;
 // then a message truncated right after the header of an optional scalar pointer field: the field must not
@@ -491,6 +506,31 @@ func (c *ctx) staleProbe() {
 				if err == nil {
 					c.h.oracle("C07", fmt.Sprintf("staleProbe: truncated message %x accepted", in))
 					return
+				}
+				if in[0] == 10 && len(in) == 3 {
+					// a sparse message from an older writer: every struct the decoder creates carries field 1 only;
+					// the fields it does not carry read as zero whatever memory the struct was carved from (R1 took
+					// pointer-free structs from the uncleared allocator blocks)
+					sparse := []byte{12, 0, 1, 10, 0, 1, 0, 0, 0, 0, 0, 0, 0, 7, 0,
+						15, 0, 2, 12, 0, 0, 0, 2, 10, 0, 1, 0, 0, 0, 0, 0, 0, 0, 1, 0, 10, 0, 1, 0, 0, 0, 0, 0, 0, 0, 2, 0,
+						13, 0, 3, 8, 12, 0, 0, 0, 1, 0, 0, 0, 5, 10, 0, 1, 0, 0, 0, 0, 0, 0, 0, 3, 0,
+						15, 0, 4, 12, 0, 0, 0, 1, 10, 0, 1, 0, 0, 0, 0, 0, 0, 0, 4, 0, 0}
+					var d2 argStale2
+					if _, err := frugal.DecodeObject(sparse, &d2); err != nil {
+						c.h.oracle("C07", "staleProbe: sparse message rejected: "+err.Error())
+						return
+					}
+					ins := []*argStaleIn{d2.P, d2.M[5]}
+					for k := range d2.L {
+						ins = append(ins, &d2.L[k])
+					}
+					ins = append(ins, d2.Q...)
+					for _, x := range ins {
+						if x == nil || x.Y != 0 || x.Z != 0 || x.W != 0 {
+							c.h.oracle("C07", fmt.Sprintf("a struct the decoder created shows, in fields the message does not carry, what the memory held before: %+v (sparse message %x)", x, sparse))
+							return
+						}
+					}
 				}
 				if dst.P != nil && uint64(*dst.P) == 0xa7a7a7a7a7a7a7a7 {
 					c.h.oracle("C07", fmt.Sprintf("after the failed decode of %x the optional field P points at memory never written by it, holding bytes of an earlier message: %#x", in, uint64(*dst.P)))
